@@ -352,6 +352,7 @@ func checkC14(w *World, r *Report) {
 	checkNoAliasedHeaders(w, r, "R14.3")
 	checkConstantCuts(w, r, reach)
 	checkConstantScanBounds(w, r, reach)
+	checkSizeDecidedResults(w, r, reach)
 }
 
 // checkNoAliasedHeaders (R14.3 / R01.7): no string or slice header is manufactured over memory
@@ -651,4 +652,114 @@ func checkConstantScanBounds(w *World, r *Report, reach map[*ssa.Function]bool) 
 	if n == 0 {
 		r.ok("R14.5", "(package)", "no scan over a node or token list is bounded by a constant", "-", fmt.Sprintf("%d index loops over []Node / []Token; none compares its index with a constant >= 1", nLoops), nLoops > 0)
 	}
+}
+
+// checkSizeDecidedResults (R14.6): what a function hands back does not depend on a size class.
+// In code on load, parse and render paths no Return that delivers template data (a string, a byte
+// slice, tokens, nodes, a template) without an error is control dependent on a comparison of a
+// size value — len/cap of data, a size parameter — with a constant >= 16.  Refusing an oversized
+// input with an error is visible and allowed; silently answering something else above a
+// threshold ("sources over 64 KiB are not retained") makes a template mean something else from
+// one length on.
+func checkSizeDecidedResults(w *World, r *Report, reach map[*ssa.Function]bool) {
+	loadReach := w.reachableFrom(w.loaderRoots())
+	isData := func(t types.Type) bool {
+		switch u := t.Underlying().(type) {
+		case *types.Basic:
+			return u.Info()&types.IsString != 0
+		case *types.Slice:
+			return true
+		case *types.Pointer:
+			return isNamed(t, twigPath, "Template") || isNamed(t, twigPath, "CompiledTemplate")
+		case *types.Interface:
+			return isNamed(t, twigPath, "Node")
+		}
+		return false
+	}
+	n, bad := 0, 0
+	for _, fn := range w.pkgFuncs() {
+		if !reach[fn] && !loadReach[fn] {
+			continue
+		}
+		res := fn.Signature.Results()
+		hasData := false
+		for i := 0; i < res.Len(); i++ {
+			if isData(res.At(i).Type()) {
+				hasData = true
+			}
+		}
+		if !hasData {
+			continue
+		}
+		ei := errResultIndex(fn.Signature)
+		instrsOf(fn, func(in ssa.Instruction) {
+			ret, ok := in.(*ssa.Return)
+			if !ok {
+				return
+			}
+			rr := retResults(ret)
+			if ei >= 0 && ei < len(rr) && !isNilConst(rr[ei]) {
+				return // an error return: refusing is allowed
+			}
+			for _, cond := range controllingConds(in) {
+				var facts []condFact
+				expandCond(cond, true, &facts, 0)
+				for _, cf := range facts {
+					bo, ok := cf.v.(*ssa.BinOp)
+					if !ok {
+						continue
+					}
+					switch bo.Op {
+					case token.LSS, token.LEQ, token.GTR, token.GEQ:
+					default:
+						continue
+					}
+					var sz string
+					var cst *ssa.Const
+					if c, ok := bo.Y.(*ssa.Const); ok {
+						if s, ok := sizeValue(bo.X, 0); ok {
+							sz, cst = s, c
+						}
+					} else if c, ok := bo.X.(*ssa.Const); ok {
+						if s, ok := sizeValue(bo.Y, 0); ok {
+							sz, cst = s, c
+						}
+					}
+					if cst == nil || cst.Value == nil || cst.Value.Kind() != constant.Int {
+						continue
+					}
+					k, _ := constant.Int64Val(cst.Value)
+					if k < 16 {
+						continue
+					}
+					n++
+					// both sides returning the same data value is harmless (a capacity decision)
+					same := true
+					instrsOf(fn, func(o ssa.Instruction) {
+						if r2, ok := o.(*ssa.Return); ok && r2 != ret {
+							rr2 := retResults(r2)
+							if ei >= 0 && ei < len(rr2) && !isNilConst(rr2[ei]) {
+								return
+							}
+							for i := range rr {
+								if i < len(rr2) && i != ei && !sameValue(rr[i], rr2[i]) {
+									same = false
+								}
+							}
+						}
+					})
+					if same {
+						return
+					}
+					bad++
+					r.bad("R14.6", ssaName(fn), "result decided by a size class", w.posOf(ret.Pos()), fmt.Sprintf("which value this function returns (without an error) depends on %s compared with the constant %d: above and below that size the caller gets different data for the same template text, so a template changes its meaning at an absolute length", sz, k))
+					return
+				}
+			}
+		})
+	}
+	if bad == 0 {
+		r.ok("R14.6", "(package)", "no data result is decided by a size class", "-", "no successful return of a data-returning function on load/parse/render paths is control dependent on a size-vs-constant comparison", false)
+	}
+	_ = n
 }
